@@ -64,7 +64,7 @@ def rule_hidden(P) -> RuleResult:
 def rule_targetnode(P) -> RuleResult:
     res = RuleResult('R-TARGETNODE')
     from .sx_compiler import select_target_cases
-    select_target_cases(P, res)
+    select_target_cases(P, res, nodes_only=True)
     return res
 
 
